@@ -404,6 +404,44 @@ def main():
                         lines.append(f"H {cname} {t} {i} " + frac_str(x[0]))
                         expect.append((cname, "Get_Hermitian_%s_pg" % t, i, 0, x, got))
 
+    # ---------------- every table has one row per function of the element (also the tables an element inherits) ----------------
+    # N: (nPe, 1); k-th derivatives: (nPe, dim); Hermite tables: (2 nPe, 1); the Gauss-point getters: (nPg, rows, nPe) resp. (nPg, 1, 2 nPe)
+    def check_shapes(cname, g):
+        for t, F in tables_of(g).items():
+            want_rows = g.nPe
+            shp = np.asarray(F, dtype=object).shape
+            res.case((cname, "table-shape", t))
+            if len(shp) != 2 or shp[0] != want_rows or shp[1] != (1 if t == "N" else g.dim):
+                res.fail(f"elem={cname} table=_{t} shape", f"{cname}._{t}() has shape {shp}: {shp[0] if shp else '?'} rows for the {want_rows} functions of the element "
+                         f"(expected ({want_rows}, {1 if t == 'N' else g.dim}))", dict(elem=cname, table="_" + t, shape=list(shp), nPe=int(g.nPe), dim=int(g.dim)))
+                continue
+            getter = getattr(g, f"Get_{t}_pg", None)
+            if getter is None:
+                continue
+            for mt_ in (MatrixType.mass, MatrixType.rigi):
+                try:
+                    arr = getter(mt_)
+                except Exception as e:  # noqa: BLE001
+                    res.fail(f"elem={cname} getter=Get_{t}_pg raises", f"{type(e).__name__}: {e}"[:200], dict(elem=cname, getter=f"Get_{t}_pg"))
+                    break
+                if arr is None:
+                    continue
+                nPg_ = g.Get_gauss(mt_).nPg
+                if tuple(np.shape(arr)) != (nPg_, 1 if t == "N" else g.dim, g.nPe):
+                    res.fail(f"elem={cname} getter=Get_{t}_pg shape", f"{cname}.Get_{t}_pg({mt_}) has shape {tuple(np.shape(arr))}, expected (nPg, rows, nPe) = {(nPg_, 1 if t == 'N' else g.dim, g.nPe)}",
+                             dict(elem=cname, getter=f"Get_{t}_pg", shape=list(np.shape(arr))))
+                    break
+    for name in names:
+        check_shapes(name, make_group(name))
+    for cname in beams:
+        gb = make_beam(cname)
+        check_shapes(cname, gb)
+        for t, F in htables_of(gb).items():
+            shp = np.asarray(F, dtype=object).shape
+            res.case((cname, "hermite-table-shape", t))
+            if shp != (2 * gb.nPe, 1):
+                res.fail(f"hermite={cname} table=_Hermitian_{t} shape", f"shape {shp}, expected {(2 * gb.nPe, 1)}", dict(elem=cname, table="_Hermitian_" + t, shape=list(shp)))
+
     # ---------------- the library's evaluator of the tables away from the Gauss points ----------------
     for name in names:
         g = make_group(name)
